@@ -15,3 +15,9 @@ Print Assumptions C14_resolver_sites.
 Theorem C14_zip_lookup_exact : forallb (fun x : str * bool => snd x) zip_lookup_sites = true.
 Proof. vm_compute. reflexivity. Qed.
 Print Assumptions C14_zip_lookup_exact.
+
+(* the pixel size of a DOCX/PPTX/XLSX picture is sniffed from its BYTES by the extractor's own
+   _get_image_pixel_dimensions(image_data) (modelled by Model.ooxml_dims), called in the image loop *)
+Theorem C14_sniffer_sites : forallb (fun x : str * bool => snd x) sniffer_sites = true.
+Proof. vm_compute. reflexivity. Qed.
+Print Assumptions C14_sniffer_sites.
